@@ -1,13 +1,16 @@
 #!/bin/sh
-# usage: tools/try_mutant.sh <patch.diff> <ID> [<ID>...]   - applies a seeded change to /repo, runs the quick checks, reverts.
+# usage: tools/try_mutant.sh <patch.diff> <ID> [<ID>...]
+# Applies a seeded change to a scratch worktree of /repo's HEAD (never to /repo itself), runs the quick checks with
+# VERIF_REPO pointing at it, removes the change again.  VERIF_TIER may be set by the caller.
 P="$1"; shift
-cd /repo || exit 2
-git diff --quiet || { echo "/repo not clean"; exit 2; }
-git apply "$P" || { echo "patch does not apply"; exit 2; }
+W=/tmp/wt/mutrun_$$
+git -C /repo worktree add -q --detach "$W" HEAD || exit 2
+( cd "$W" && git apply "$P" ) || { echo "patch does not apply"; git -C /repo worktree remove --force "$W"; exit 2; }
 cd /verif
 for id in "$@"; do
-  ./check "$id" --tier quick > "work/mut_$id.log" 2>&1
-  echo "$id exit=$? :: $(grep -c '^VIOLATION' work/mut_$id.log) violations :: $(tail -1 work/mut_$id.log)"
-  grep -A1 '^VIOLATION' "work/mut_$id.log" | head -6
+  mkdir -p work
+  VERIF_REPO="$W" VERIF_EVIDENCE_DIR="$W/_evidence" VERIF_REPLAY_DIR="$W/_replays" VERIF_WORK="$W/_work" ./check "$id" --tier "${VERIF_TIER:-quick}" > "work/mut_${id}_$$.log" 2>&1
+  echo "$id exit=$? :: $(grep -c '^VIOLATION' work/mut_${id}_$$.log) violations :: $(tail -1 work/mut_${id}_$$.log)"
+  grep -A1 '^VIOLATION' "work/mut_${id}_$$.log" | head -6
 done
-git -C /repo checkout -- .
+git -C /repo worktree remove --force "$W"
